@@ -25,24 +25,32 @@ def _opt(opts, name, default):
     return default
 
 
-def step_budget(tool, opts, in_len):
+def step_budget(tool, opts, data):
     """Deliberately loose bound separating 'terminates' from 'does not' (DESIGN 5):
-    300 back-edges per input byte + 4 per sample the options/format can announce + 2e6.
-    Legitimate cost measured on the fixtures is < 1 per (input byte + sample)."""
+    150 back-edges per input byte + 3 per sample that the options and the (possibly damaged)
+    header fields can announce + 250 000.  Legitimate cost measured on the fixtures is < 1 per
+    (input byte + sample); the worst terminating input that can be built at all (squashed VEF
+    records made of 127-fold repeats) costs 63.5 per input byte."""
+    in_len = len(data)
+    skip = _opt(opts, "-s", 0)
     if tool == "hrstoppm":
         samples = 3 * _opt(opts, "-w", 320) * _opt(opts, "-r", 192)
     elif tool == "maxtoppm":
+        w = _opt(opts, "-w", 256)
         if "-newsroom" in opts:
-            samples = 3 * 2040 * 255
+            hd = data[skip:skip + 2]
+            samples = 3 * 8 * hd[0] * hd[1] if len(hd) == 2 else 0
         elif "-r" in opts:
-            samples = 3 * _opt(opts, "-w", 256) * _opt(opts, "-r", 192)
+            samples = 3 * w * _opt(opts, "-r", 192)
         else:
-            samples = 3 * 8 * 65535
+            hd = data[skip:skip + 3]
+            size = hd[1] * 256 + hd[2] if len(hd) == 3 else 0
+            samples = 3 * 8 * size
     elif tool == "pixtopgm":
         samples = 2 * in_len
     else:
         samples = 3 * 64000 * 2
-    return 300 * in_len + 4 * samples + 2_000_000
+    return 150 * in_len + 3 * samples + 250_000
 
 
 class Env:
@@ -111,7 +119,7 @@ class Run:
 def simulate(tool, opts, data: bytes, env: Env, damaged=(), boundaries=(), budget=None) -> Run:
     argv = build_argv(opts, env, tool)
     outp = out_path(tool)
-    budget = budget or step_budget(tool, opts, len(data))
+    budget = budget or step_budget(tool, opts, data)
     sin = ChunkSchedule(env.in_chunk, env.in_seed, boundaries)
     sout = ChunkSchedule(env.out_chunk, env.out_seed)
     use_stdin = env.in_kind != "path"
